@@ -15,15 +15,28 @@ def run(tier, replay=None):
     sh2 = common.Sharded(exe2, lambda a, b: ['c16c', common.seed(), a, b], ctotal, tag='c16c', timeout=1500).run()
     common.absorb(res, sh2)
     st2 = common.merge_stats(sh2.stats)
-    res.evaluations = st.get('histories', 0) + st2.get('sessions', 0)
-    res.distinct = st.get('distinct', 0) + st2.get('distinct_signatures', 0)
+    # systematic leg: every schedule with at most `bound` preemptions of each small configuration (stateless DFS over the real code)
+    bound = 2 if tier == 'quick' else 3
+    ncfg = 36
+    sh3 = common.Sharded(exe2, lambda a, b: ['c16dfs', common.seed(), a, b, bound, 3000000], ncfg, tag='c16dfs', chunk=1, timeout=1500,
+                         case_timeout=1300).run()
+    common.absorb(res, sh3)
+    st3 = common.merge_stats(sh3.stats)
+    res.evaluations = st.get('histories', 0) + st2.get('sessions', 0) + st3.get('dfs_executions', 0)
+    res.distinct = st.get('distinct', 0) + st2.get('distinct_signatures', 0) + st3.get('distinct_signatures', 0)
     res.rule = ('sequential: random non-blocking histories (<= 40 ops over write, read, setFileSize, abort, setBufferSize, observers) against '
                 'the FIFO model, destructor frees queued objects exactly once; concurrent: 1 producer (0..4 unique objects) + 1 consumer + 1 '
                 'controller thread issuing setFileSize(tellp)/abort at a PRNG-chosen point, capacities 1..3, under the schedule controller; '
                 'event-log checker: FIFO prefix, exactly-once, capacity inequality, null implies drained, abort releases all, no leak. '
                 'distinct = op-kind sequences + schedule signatures')
     res.samples = (st.get('samples', []) + st2.get('samples', []))[:8]
-    res.extra = dict(sequential={k: v for k, v in st.items() if k != 'samples'}, concurrent={k: v for k, v in st2.items() if k != 'samples'})
+    res.extra = dict(sequential={k: v for k, v in st.items() if k != 'samples'}, concurrent={k: v for k, v in st2.items() if k != 'samples'},
+                     systematic=dict(preemption_bound=bound, configurations=st3.get('dfs_configurations', 0), executions=st3.get('dfs_executions', 0),
+                                     truncated_configurations=st3.get('dfs_truncated_configurations', 0),
+                                     max_decisions_per_execution=st3.get('max_decisions_per_execution', 0),
+                                     complete_up_to_bound=(st3.get('dfs_configurations', 0) == ncfg and not st3.get('dfs_truncated_configurations', 0))))
+    if st3.get('dfs_configurations', 0) < ncfg and not (sh3.crashes or sh3.viols or sh3.hangs):
+        res.inconclusive.append('systematic leg: only %d of %d configurations explored' % (st3.get('dfs_configurations', 0), ncfg))
     if st.get('histories', 0) < total and not sh.crashes:
         res.inconclusive.append('only %d of %d sequential histories ran' % (st.get('histories', 0), total))
     if st2.get('sessions', 0) < ctotal and not (sh2.crashes or sh2.viols):
